@@ -17,6 +17,9 @@ ALT = os.environ.get("VERIF_ALT", "")
 BIN_DIR = os.path.join(VERIF, "bin" + ("-" + ALT if ALT else ""))
 OUT_DIR = os.path.join(VERIF, "out" + ("-" + ALT if ALT else ""))
 EVID_DIR = os.path.join(VERIF, "evidence" + ("-" + ALT if ALT else ""))
+if not ALT and (os.environ.get("VERIF_ONLY") or os.environ.get("VERIF_DEBUG")):
+    # a debugging run of selected cases must not replace the evidence of the registered check
+    EVID_DIR = os.path.join(VERIF, "evidence-debug")
 GOENV = dict(GOFLAGS="-mod=mod", GOPROXY="off", GOSUMDB="off", GOTOOLCHAIN="local")
 
 PROPS = {}
